@@ -335,3 +335,13 @@ def run(facts, rep, ctx):
     _run_before_round6(facts, rep, ctx)
     from . import round6
     round6.tb5b(facts, rep)
+
+
+_run_before_round7 = run
+
+
+def run(facts, rep, ctx):
+    """rules added in the sixth seeding round (rules/round7.py)"""
+    _run_before_round7(facts, rep, ctx)
+    from . import round7
+    round7.bp1(facts, rep)
